@@ -46,7 +46,11 @@ func vCallInstalled(id string, x int) (res int, panicked bool) {
 	return fn(x), false
 }
 
-func vFuncHistory(K int) {
+func vFuncHistory(K int) { vFuncHistoryForm(K, 0) }
+
+// vFuncHistoryForm: form 0 addresses the target by its function value, form 1 by name
+// (ExportFunc(name) for Apply/Cancel, ExportFunc(name).As(sig) for Return/When).
+func vFuncHistoryForm(K, form int) {
 	vEnv()
 	vPristine(vTargetFn)
 	b := Create()
@@ -54,14 +58,25 @@ func vFuncHistory(K int) {
 	for step := 0; step < K; step++ {
 		op := verifChoice(vOpN[step], 5)
 		id := "C12.func"
+		if form == 1 {
+			id = "C12.byname"
+		}
 		switch op {
 		case 0: // lookup + Apply(cb_k)
 			k := verifChoice(vArgN[step], 2)
-			b.Func(vTargetFn).Apply(vCbs[k])
+			if form == 0 {
+				b.Func(vTargetFn).Apply(vCbs[k])
+			} else {
+				b.ExportFunc("vTargetFn").Apply(vCbs[k])
+			}
 			md = vModel{mode: vCallback, cb: k}
 		case 1: // lookup + Return(v)
 			v := verifInt(vValN[step])
-			b.Func(vTargetFn).Return(v)
+			if form == 0 {
+				b.Func(vTargetFn).Return(v)
+			} else {
+				b.ExportFunc("vTargetFn").As(vTargetFn).Return(v)
+			}
 			if md.mode != vStub {
 				md = vModel{mode: vStub, hasDef: true, defVal: v, defN: 1}
 			} else {
@@ -74,7 +89,11 @@ func vFuncHistory(K int) {
 		case 2: // lookup + When(a).Return(v), a distinct per step
 			a := 10 + step
 			v := verifInt(vValN[step])
-			b.Func(vTargetFn).When(a).Return(v)
+			if form == 0 {
+				b.Func(vTargetFn).When(a).Return(v)
+			} else {
+				b.ExportFunc("vTargetFn").As(vTargetFn).When(a).Return(v)
+			}
 			if md.mode != vStub {
 				md = vModel{mode: vStub}
 			}
@@ -84,7 +103,11 @@ func vFuncHistory(K int) {
 			b.Reset()
 			md = vModel{}
 		case 4:
-			b.Func(vTargetFn).Cancel()
+			if form == 0 {
+				b.Func(vTargetFn).Cancel()
+			} else {
+				b.ExportFunc("vTargetFn").Cancel()
+			}
 			md = vModel{}
 		}
 		// the target behaves according to the most recent instruction
@@ -113,6 +136,11 @@ func vFuncHistory(K int) {
 		}
 	}
 	b.Reset()
+	if form == 1 {
+		verifAssert(!vDiverted(vTargetFn), "C12.byname.final-reset-restores")
+		verifReached("C12.byname")
+		return
+	}
 	verifAssert(!vDiverted(vTargetFn), "C12.func.final-reset-restores")
 	verifReached("C12.func")
 }
